@@ -82,6 +82,7 @@ class Opts:
         self.shared_labels_bias = 0.0  # probability that a later plain stratification reuses the stratum LABELS of an earlier one (yes/no under two different names)
         self.inf_adjust_bias = 0.0     # lower bound on the probability that a stratification adjusts infectiousness
         self.param_split_all_bias = 0.0  # probability that every proportion of a literal split is replaced by a parameter of its own with that value
+        self.two_infectious = False    # always two infectious compartments
         self.split_bias = 0.0          # lower bound on the probability that a stratification carries a population split
         self.inexact_split_bias = 0.0  # probability that a literal split sums to one only within the API's tolerance (0.01), or that a split of two independent parameters is used (not checked by the API)
         self.shuffle_split_bias = 0.0  # probability that the population split is declared in another order than the strata
@@ -211,6 +212,8 @@ class Gen:
         self.n_comps_base = ncomp
         self.state_exprs_used = False
         inf = r.sample(names, r.randint(1, min(2, ncomp)))
+        if o.two_infectious and len(inf) == 1:
+            inf = inf + [next(n for n in reversed(names) if n not in inf)]      # (listed after the first one although it may come earlier in the model)
         self.inf = inf
         if o.unit_times:
             self.t0, self.dt = Fr(0), Fr(1)
